@@ -106,6 +106,25 @@ def full_index_workloads(rng, num):
     return ws
 
 
+def single_entry_workloads(rng, num, count):
+    """one entry per acknowledged batch (so that blocks fill up exactly at batch boundaries), lookups now and then
+    and after a restart; interleaved with a few larger batches"""
+    ws = []
+    for _ in range(num):
+        ops = []
+        for i in range(count):
+            ops += [{"a": "ins", "k": rng.choice(KEYS)}, {"a": "wait"}]
+            if i % 6 == 5:
+                ops.append({"a": "q"})
+            if rng.random() < 0.1:
+                ops.append({"a": "hold"})
+                ops += [{"a": "ins", "k": rng.choice(KEYS)} for _ in range(rng.randint(2, 9))]
+                ops += [{"a": "unhold"}, {"a": "wait"}, {"a": "q"}]
+        ops += [{"a": "q"}, {"a": "reopen"}, {"a": "q"}]
+        ws.append({"ops": ops})
+    return ws
+
+
 def fault_workloads(rng, num, all_faults):
     """a small image with overwrites, deletes and a multi-batch blob; a snapshot in the middle provides the
     older generation of every page; then every fault class on every used page"""
@@ -362,6 +381,13 @@ def check(pid, tier):
         jobs.append(("layout-256p-exact1page", 6, 256, 4032, False, layout_workloads(rng, max(3, n // 4), True), "NoViolation_C07"))
         jobs.append(("layout-16p-exact2pages", 16, 16, 8128, False, layout_workloads(rng, n, False), "NoViolation_C07"))
         jobs.append(("layout-600p-fullindex", 4, 600, 0, False, full_index_workloads(rng, 6 if th else 3), "NoViolation_C07"))
+        # blob indexes of two and three pages (with_blob_index_size), blocks that fill up exactly at batch boundaries
+        jobs.append(("layout-16p-index2p", 8, 16, 0, False, single_entry_workloads(rng, 4 if th else 2, 45),
+                     "NoViolation_C07", "", {"blob_index_pages": 2}))
+        jobs.append(("layout-16p-index3p-2page-entries", 8, 16, 5000, False,
+                     single_entry_workloads(rng, 4 if th else 2, 30) + layout_workloads(rng, 2, False),
+                     "NoViolation_C07", "", {"blob_index_pages": 3}))
+        jobs.append(("layout-16p-singles", 8, 16, 0, False, single_entry_workloads(rng, 4 if th else 2, 45), "NoViolation_C07"))
     if pid == "C09":
         n = 6 if th else 2
         # 8 blocks of 4 pages: 3 one-page entries per block, 24 per device capacity
